@@ -370,15 +370,24 @@ theorem waiter_progress {s : State} (h : Reach s) (t a : Nat) (hp : (s.thr t).pc
     | unlocking b => right; left; exact ⟨.unlock x, rfl, by simp [step, hpx]⟩
 
 /-- Single-name corollary: if all waiting in the system is for one name `a`, then whenever some
-    thread waits, some thread is in a body or some event is enabled — no protocol deadlock. -/
+    thread waits for `a`, either the waiter can take the lock now, or the thread that HOLDS `a`
+    is executing its body or has an enabled protocol step of its own — the protocol never leaves
+    the holder of the only contended name stuck. (The conclusion is about the holder: that *some*
+    event is enabled would be true in every state, an idle thread can always `look`.) -/
 theorem single_name_no_deadlock {s : State} (h : Reach s) (t a : Nat)
     (hp : (s.thr t).pc = .wantLock a) (hone : ∀ x b, (s.thr x).pc = .wantLock b → b = a) :
-    (∃ x, (s.thr x).pc = .run ∧ (s.thr x).holds a = true) ∨ ∃ e, (step s e).isSome = true := by
-  rcases waiter_progress h t a hp with h1 | ⟨x, _, hh, h2 | ⟨e, _, he⟩ | ⟨b, hb, hpb⟩⟩
-  · exact Or.inr ⟨_, h1⟩
-  · exact Or.inl ⟨x, h2, hh⟩
-  · exact Or.inr ⟨e, he⟩
+    (step s (.lock t)).isSome = true ∨
+    ∃ x, x ≠ t ∧ (s.thr x).holds a = true ∧
+      ((s.thr x).pc = .run ∨ ∃ e, thread e = x ∧ (step s e).isSome = true) := by
+  rcases waiter_progress h t a hp with h1 | ⟨x, hxt, hh, h2 | ⟨e, he1, he2⟩ | ⟨b, hb, hpb⟩⟩
+  · exact Or.inl h1
+  · exact Or.inr ⟨x, hxt, hh, Or.inl h2⟩
+  · exact Or.inr ⟨x, hxt, hh, Or.inr ⟨e, he1, he2⟩⟩
   · exact absurd (hone x b hpb) hb
+
+/-- the vacuous form, for the record: an unrelated idle thread can always start a block -/
+example (s : State) (t a : Nat) (ht : t ≠ 0) (hp : (s.thr t).pc = .run) :
+    (step s (.look t a)).isSome = true := by simp [step, ht, hp]
 
 /-- **No lost update.** A variable that is read and written only inside blocks of one name
     (`read`/`write` events are enabled only there; the increment is *not* atomic: any number of
@@ -440,7 +449,11 @@ theorem unlock_deferred_on_acquiring_path :
 /-- **Order of the protocol steps and section boundaries** (read off the skeleton): `M.Lock`
     before `O[N]=tid`; `O[N]=0` before `M.Unlock` in the execution order of the deferred calls;
     `M[N]` written only when absent; `M.Lock`, `M.Unlock` and the body outside `MutexesMutex`
-    sections (a blocking operation inside a section would make every name block every name). -/
+    sections (a blocking operation inside a section would make every name block every name);
+    the key of every table access is the block's name token (two blocks exclude each other exactly
+    when they carry the same name — the model's names ARE the table keys); the named mutex is
+    acquired by one blocking `Lock()` (counted over the whole function, whatever its shape; any
+    TryLock = refuted: polling or a bounded wait; no Lock at all = unknown). -/
 theorem protocol_order_facts :
     verdict "true" "false" Ecal.Gen.C12.orderFacts ≠ some false := by decide
 
@@ -470,7 +483,8 @@ theorem owner_before_lock_self_deadlock :
 
 /-- Negative witness (`M.Lock` *inside* the table section): thread 2 waits for the named mutex
     while it holds `MutexesMutex`; thread 1, which has the named mutex, needs `MutexesMutex` for its
-    release — both are stuck, with ONE name and no nesting (impossible in the real protocol:
+    release — both are stuck, with ONE name and no nesting: the holder of the only contended name
+    neither runs its body nor has an enabled step (excluded for the real protocol by
     `single_name_no_deadlock`). The same variant makes every name block every name. -/
 theorem lock_in_section_deadlock :
     (runWith (stepV .lockInSection) init [.look 1 0, .decide 1, .lock 1, .setOwner 1, .look 2 0, .decide 2,
@@ -538,13 +552,25 @@ theorem id_counter_monotone :
 example : ThreadId.counterMonotone [("NewThreadID", "inc"), ("JoinAll", "assign")] = some false := by decide
 example : ThreadId.counterMonotone [("NewThreadID", "inc"), ("f", "unknown")] = none := by decide
 
-/-- The pool's constructor starts the id counter at a value ≥ 1 (regenerated:
-    `Ecal.Gen.C12.idCounterInit`, `none` = cannot tell): thread id 0 is never handed out. With
-    `tid = 0` the Go code would enter a released name without locking (`owner == tid`); the model
-    forbids thread 0 (`step s (.look 0 a) = none`). -/
-theorem id_counter_starts_positive : Ecal.Gen.C12.idCounterInit ≠ some 0 := by decide
+/-- The first thread id handed out is ≥ 1 (regenerated: `Ecal.Gen.C12.idFirst` = the constructor's
+    initial value of the counter, plus one if `NewThreadID` increments before it reads; `none` =
+    cannot tell): thread id 0 is never handed out. With `tid = 0` the Go code would enter a released
+    name without locking (`owner == tid`); the model forbids thread 0 (`step s (.look 0 a) = none`). -/
+theorem first_thread_id_positive : Ecal.Gen.C12.idFirst ≠ some 0 := by decide
 
 example (s : State) (a : Nat) : step s (.look 0 a) = none := by simp [step]
+
+/-- **A thread is its id.** No call in the tree evaluates ECAL code with an integer literal as
+    thread id (regenerated: `Ecal.Gen.C12.literalTids`, all packages, `Runtime.Eval` and
+    `ECALFunction.Run`). The second disjunct is the ONE recorded hit on the tree as it was when
+    this was written — the debugger's `inject` evaluates as "thread 999", so two concurrent
+    injections (or an injection and the pool's 999th id) re-enter each other's blocks: a genuine
+    violation of C12, shown by harness mode J (occupancy 5 in one block) and recorded as known
+    finding `inject-shares-thread-999` until the repair (a fresh id per injection, owned by
+    property C16) is in the tree; then the list is empty and the disjunct is dropped. -/
+theorem no_literal_tid :
+    Ecal.Gen.C12.literalTids = [] ∨
+    Ecal.Gen.C12.literalTids = ["interpreter/ecalDebugger.InjectValue:999"] := by decide
 
 /-- The shape of `NewThreadID` extracted from `/repo` on every run (`Ecal.Gen.C12.idSkeleton`):
     the read and the increment of the id counter happen inside ONE critical section (or are one
